@@ -16,14 +16,16 @@ use crate::wl;
 const SIGMA_FILTER: [&str; 8] = ["/", "+", "#", "$", "a", "\0", "é", "𝄞"];
 const SIGMA_NAME: [&str; 8] = ["/", "+", "#", "$", "S", "a", "\0", "é"];
 
-const PREFIXES_FILTER: [&str; 25] = [
+const PREFIXES_FILTER: [&str; 29] = [
     "", "$share/", "$share/g/", "$share/g", "$share", "$shar", "$sharee/", "$SHARE/g/", "$share/é/", "$share//", "$share/+/", "$share/#/", "$share/g+/", "/$share/g/",
     // look-alikes of the marker with one multi-byte character, and a seven-character first level
     "éshare/", "$éhare/", "$sharé/", "$sh𝄞re/", "$shareé/", "éééééé/", "$share\u{0}/", "abcdef/",
     // share names / filters that look like the marker themselves
     "$share/$share/", "$share/$share", "$share/g/$share/",
+    // the $SYS/ marker at the start and elsewhere
+    "$SYS/", "a/$SYS/", "x$SYS/", "$share/g/$SYS/",
 ];
-const PREFIXES_NAME: [&str; 5] = ["", "$share/", "$SYS/", "$sys/", "$SYS"];
+const PREFIXES_NAME: [&str; 11] = ["", "$share/", "$SYS/", "$sys/", "$SYS", "a/$SYS/", "/$SYS/", "x$SYS/", "$SYS/$SYS/", "a/$share/", "x$share/"];
 
 fn scase(s: &str) -> Case {
     Case::new("string", 0, s.as_bytes())
